@@ -1784,12 +1784,14 @@ impl<'a, R: FileManager> FrontendCtx<'a, R> {
         &mut self,
         q: &TsEntityName,
         file: BffFileName,
+        visibility: Visibility,
     ) -> Res<AddressedQualifiedType> {
         match q {
             TsEntityName::TsQualifiedName(ts_qualified_name) => {
                 let left_part = self.get_adressed_qualified_type_from_entity_name(
                     &ts_qualified_name.left,
                     file.clone(),
+                    visibility,
                 )?;
                 let anchor = Anchor {
                     f: file.clone(),
@@ -1808,12 +1810,9 @@ impl<'a, R: FileManager> FrontendCtx<'a, R> {
                 }
             }
             TsEntityName::Ident(ident) => {
-                let addr = ModuleItemAddress::from_ident(
-                    ident,
-                    file.clone(),
-                    // TODO: is visibility correct here?
-                    Visibility::Local,
-                );
+                // the leftmost name of `A.B.C` is a local of the file, except after `import("…").`, where it
+                // is an export of the imported file
+                let addr = ModuleItemAddress::from_ident(ident, file.clone(), visibility);
                 let anchor = Anchor {
                     f: file.clone(),
                     s: ident.span,
@@ -1884,6 +1883,7 @@ impl<'a, R: FileManager> FrontendCtx<'a, R> {
                 let qualified_type = self.get_adressed_qualified_type_from_entity_name(
                     &ts_qualified_name.left,
                     file.clone(),
+                    visibility,
                 )?;
 
                 let new_addr = match qualified_type {
